@@ -63,8 +63,14 @@ class Run:
         fn = getattr(self.mod, "EXTRACT", None)
         if not fn:
             return
+        self.tie_notes = []
         try:
             files = fn(common.REPO)
+        except common.SourceDrift as e:  # part of the source left the translated subset: correspondence-only for it
+            files = e.files
+            self.tie_notes = [x for x in str(e).split(" || ") if x]
+            for n in self.tie_notes:
+                self.say("NOTE property=%s source tie not re-established (this run relies on the bit-exact correspondence for it): %s" % (self.pid, n[:300]))
         except Exception as e:  # translator could not read the source
             self.proof_alarms.append(("translator", "extraction failed: %r" % (e,)))
             return
@@ -520,6 +526,7 @@ def main(argv):
             "op_histogram": hist,
             "generator_coverage": cover,
             "proof_alarms": [{"name": n, "detail": d[:300]} for n, d in run.proof_alarms[:20]],
+            "source_tie_notes": [n[:300] for n in getattr(run, "tie_notes", [])][:20],
             "exhaustive": bool(getattr(mod, "EXHAUSTIVE", {}).get(tier, False)),
         },
         "assumptions": getattr(mod, "ASSUMPTIONS", []),
